@@ -6,21 +6,38 @@
     pageInfo was selected, how each getter call handed over its result, the response and the
     (min, max, limit) triples the getter received. *)
 From Coq Require Import List NArith ZArith Bool String.
-From ApiFu Require Import Base.Sexp TimeConn.TimeModel TimeConn.TimeSpec.
+From ApiFu Require Import Base.Sexp TimeConn.TimeModel TimeConn.TimeSpec TimeConn.TimeErrModel TimeConn.TimeCursorCodec TimeConn.GoTimeModel TimeConn.DateTimeModel.
+From ApiFu Require Cost.CostModel.
 Import ListNotations.
 Open Scope string_scope.
 
 (** ** Observations *)
 Inductive ocur := OcNone | OcBad | OcSome (e : edge).
 Record oinfo := { oi_prev : bool; oi_next : bool; oi_start : ocur; oi_end : ocur }.
+(** an error message of the response: the error the harness getter raised in its i-th call, the
+    error of the harness's ResolveTotalCount, anything else *)
+Inductive emsg := MG (i : Z) | MTC | MOther.
 Inductive obs :=
-| ObCrash | ObHang | ObError | ObMalformed
-| ObPage (edges : list edge) (cursors : list ocur) (info : option oinfo).
+| ObCrash | ObHang | ObError (msgs : list emsg) | ObMalformed
+| ObPage (edges : list edge) (cursors : list ocur) (info : option oinfo) (total : option Z).
+
+(** the cursor strings as they travelled: per edge, startCursor, endCursor *)
+Record rawcur := { rc_edges : list bytes; rc_start : bytes; rc_end : bytes }.
 
 Record step := {
-  s_args : args; s_info : bool; s_pres : list pres; s_obs : obs;
-  s_calls : list (query * list edge)      (* each triple the getter received, and its answer *)
+  s_args : args; s_sel : sel; s_tc : tcres; s_xpres : list xpres; s_obs : obs;
+  s_calls : list (query * list edge);     (* each triple the getter received, and its answer *)
+  s_raised : list Z;                      (* per call: 0 = no error, 1 = an error, 2 = a typed nil error, 3 = a non-slice value *)
+  s_after_raw : option bytes;             (* the after / before argument strings as sent *)
+  s_before_raw : option bytes;
+  s_from_raw : option bytes;              (* the atOrAfterTime / beforeTime argument strings as sent *)
+  s_to_raw : option bytes;
+  s_raw : option rawcur;                  (* the cursor strings of the response *)
+  s_tccalls : Z;                          (* calls of ResolveTotalCount *)
+  s_cost : option (Z * Z * Z)             (* the field's cost: Resolver, Multiplier; the edges field's Multiplier *)
 }.
+Definition s_info (s : step) : bool := want_info (s_sel s).
+Definition s_pres (s : step) : list pres := map xp (s_xpres s).
 Definition s_triples (s : step) : list query := map fst (s_calls s).
 
 Inductive kind := KSingle | KWalk (fwd : bool) (n : Z).
@@ -56,12 +73,44 @@ Definition dec_args (s : sexp) : option args :=
   | None => None
   end.
 
-Definition dec_pres (s : sexp) : option pres :=
+Definition dec_gerr (i : nat) (z : Z) : option gerr :=
+  if Z.eqb z 0 then Some NoErr else if Z.eqb z 1 then Some (Err (Z.of_nat i))
+  else if Z.eqb z 2 then Some TypedNilErr else if Z.eqb z 3 then Some BadValue else None.
+
+(** (promise nil error ...): the i-th call's error, when it raises one, is identified by i *)
+Definition dec_xpres (i : nat) (s : sexp) : option xpres :=
   match s with
-  | SL [p; n] => match as_bool p, as_bool n with
-                 | Some p', Some n' => Some {| by_promise := p'; nil_when_empty := n' |}
-                 | _, _ => None
-                 end
+  | SL (p :: n :: e :: _) =>
+      match as_bool p, as_bool n, as_Z e with
+      | Some p', Some n', Some e' =>
+          match dec_gerr i e' with
+          | Some ge => Some {| xp := {| by_promise := p'; nil_when_empty := n' |}; xerr := ge |}
+          | None => None
+          end
+      | _, _, _ => None
+      end
+  | _ => None
+  end.
+Fixpoint dec_xpres_list (i : nat) (l : list sexp) : option (list xpres) :=
+  match l with
+  | [] => Some []
+  | x :: l' => match dec_xpres i x, dec_xpres_list (S i) l' with
+               | Some a, Some b => Some (a :: b)
+               | _, _ => None
+               end
+  end.
+
+Definition dec_emsg (s : sexp) : option emsg :=
+  match untag s with
+  | Some (t, [i]) => if String.eqb t "g" then match as_Z i with Some z => Some (MG z) | None => None end else None
+  | Some (t, []) => if String.eqb t "tc" then Some MTC else if String.eqb t "other" then Some MOther else None
+  | _ => None
+  end.
+
+Definition dec_tc (s : sexp) : option tcres :=
+  match untag s with
+  | Some (t, [n]) => if String.eqb t "val" then match as_Z n with Some z => Some (TCVal z) | None => None end else None
+  | Some (t, []) => if String.eqb t "err" then Some (TCErr 0) else None
   | _ => None
   end.
 
@@ -95,14 +144,15 @@ Definition dec_obs (s : sexp) : option obs :=
   | Some (t, l) =>
       if String.eqb t "crash" then Some ObCrash
       else if String.eqb t "hang" then Some ObHang
-      else if String.eqb t "error" then Some ObError
+      else if String.eqb t "error" then
+        match map_opt dec_emsg l with Some ms => Some (ObError ms) | None => None end
       else if String.eqb t "malformed" then Some ObMalformed
       else if String.eqb t "page" then
         match l with
-        | [SL es; SL cs; i] =>
-            match map_opt dec_edge es, map_opt dec_ecur cs, dec_oinfo i with
-            | Some es', Some cs', Some i' => Some (ObPage es' cs' i')
-            | _, _, _ => None
+        | SL es :: SL cs :: i :: tot :: _ =>
+            match map_opt dec_edge es, map_opt dec_ecur cs, dec_oinfo i, as_option as_Z tot with
+            | Some es', Some cs', Some i', Some tot' => Some (ObPage es' cs' i' tot')
+            | _, _, _, _ => None
             end
         | _ => None
         end
@@ -112,11 +162,40 @@ Definition dec_obs (s : sexp) : option obs :=
 
 Definition dec_call (s : sexp) : option (query * list edge) :=
   match s with
-  | SL [a; b; c; SL r] => match as_Z a, as_Z b, as_Z c, map_opt dec_edge r with
+  | SL (a :: b :: c :: SL r :: _) =>
+                          match as_Z a, as_Z b, as_Z c, map_opt dec_edge r with
                           | Some x, Some y, Some z, Some r' => Some (mkq x y z, r')
                           | _, _, _, _ => None
                           end
   | _ => None
+  end.
+Definition dec_raised (s : sexp) : option Z :=
+  match s with
+  | SL [_; _; _; _; k] => as_Z k
+  | _ => None
+  end.
+
+Definition dec_raw (o : sexp) : option rawcur :=
+  match untag o with
+  | Some (_, [_; _; _; _; r]) =>
+      match tagged "raw" r with
+      | Some [SL cs; st; en] =>
+          match map_opt as_bytes cs, as_bytes st, as_bytes en with
+          | Some cs', Some st', Some en' => Some {| rc_edges := cs'; rc_start := st'; rc_end := en' |}
+          | _, _, _ => None
+          end
+      | _ => None
+      end
+  | _ => None
+  end.
+
+Definition dec_rawarg (name : string) (a : sexp) : option bytes :=
+  match tagged "args" a with
+  | Some l => match field1 name l with
+              | Some x => match as_option as_bytes x with Some (Some b) => Some b | _ => None end
+              | None => None
+              end
+  | None => None
   end.
 
 Definition dec_step (s : sexp) : option step :=
@@ -124,10 +203,29 @@ Definition dec_step (s : sexp) : option step :=
   | Some (a :: l) =>
       match dec_args a, field1 "info" l, field1 "pres" l, field1 "obs" l, field1 "triples" l with
       | Some a', Some i, Some (SL ps), Some o, Some (SL ts) =>
-          match as_bool i, map_opt dec_pres ps, dec_obs o, map_opt dec_call ts with
-          | Some i', Some ps', Some o', Some ts' =>
-              Some {| s_args := a'; s_info := i'; s_pres := ps'; s_obs := o'; s_calls := ts' |}
-          | _, _, _, _ => None
+          match as_bool i, dec_xpres_list 0 ps, dec_obs o, map_opt dec_call ts, map_opt dec_raised ts with
+          | Some i', Some ps', Some o', Some ts', Some rs' =>
+              match field1 "total" l, field1 "tc" l, field1 "tccalls" l with
+              | Some t, Some tc, Some n =>
+                  match as_bool t, dec_tc tc, as_Z n with
+                  | Some t', Some tc', Some n' =>
+                      Some {| s_args := a'; s_sel := {| want_info := i'; want_total := t' |}; s_tc := tc';
+                              s_xpres := ps'; s_obs := o'; s_calls := ts'; s_raised := rs'; s_tccalls := n';
+                              s_after_raw := dec_rawarg "afterraw" a; s_before_raw := dec_rawarg "beforeraw" a;
+                              s_from_raw := dec_rawarg "fromraw" a; s_to_raw := dec_rawarg "toraw" a;
+                              s_raw := dec_raw o;
+                              s_cost := match field "cost" l with
+                                        | Some [x; y; z] => match as_Z x, as_Z y, as_Z z with
+                                                            | Some x', Some y', Some z' => Some (x', y', z')
+                                                            | _, _, _ => None
+                                                            end
+                                        | _ => None
+                                        end |}
+                  | _, _, _ => None
+                  end
+              | _, _, _ => None
+              end
+          | _, _, _, _, _ => None
           end
       | _, _, _, _, _ => None
       end
@@ -183,6 +281,7 @@ Definition qcount (q : query) (l : list query) : nat := List.length (filter (que
 Definition queries_same (a b : list query) : bool :=
   forallb (fun q => Nat.eqb (qcount q a) (qcount q b)) (a ++ b).
 Definition pres_fun (ps : list pres) : nat -> pres := fun i => nth i ps sync_pres.
+Definition xpres_fun (ps : list xpres) : nat -> xpres := fun i => nth i ps (xsync sync_pres).
 
 Definition of_edge (e : edge) : sexp := SL [SZ (nano e); SStr (cid e)].
 
@@ -212,17 +311,47 @@ Definition at_outside_cursor (a : args) (e : edge) : bool :=
 
 Definition crash_key (ps : list pres) : string :=
   if existsb (fun p => by_promise p && nil_when_empty p) ps then "crash-promise-nil-result" else "crash".
+Definition crash_key_x (s : step) : string :=
+  if existsb (fun p => match xerr p with BadValue => true | _ => false end) (s_xpres s)
+  then "crash-non-slice-result" else crash_key (s_pres s).
+
+(** the calls (by index) in which the harness getter really raised an error *)
+Fixpoint raised_real (i : Z) (rs : list Z) : list Z :=
+  match rs with
+  | [] => []
+  | k :: rs' => (if Z.eqb k 1 then [i] else []) ++ raised_real (Z.succ i) rs'
+  end.
+Definition tc_fails (s : step) : bool :=
+  want_total (s_sel s) && match s_tc s with TCErr _ => true | TCVal _ => false end.
 
 Definition oracle_step (E : list edge) (g : query -> list edge) (i : nat) (s : step) : option sexp :=
   let a := s_args s in
   let fail (key : string) (d : list sexp) := Some (v_oracle_fail key (of_nat i :: d)) in
+  let raised := raised_real 0 (s_raised s) in
   match s_obs s with
   | ObMalformed => fail "malformed-response" []
-  | ObCrash => fail (crash_key (s_pres s)) []
+  | ObCrash => fail (crash_key_x s) []
   | ObHang => fail "hang" []
-  | ObError => if args_ok a then fail "error-on-valid-arguments" [] else None
-  | ObPage es cs info =>
+  | ObError msgs =>
+      if negb (args_ok a) then None
+      else if existsb (fun m => match m with MG k => negb (existsb (Z.eqb k) raised) | _ => false end) msgs
+      then fail "error-not-raised-by-any-issued-call" []
+      else if existsb (fun m => match m with MTC => negb (tc_fails s) | _ => false end) msgs
+      then fail "total-count-error-out-of-nothing" []
+      else if (existsb (fun m => match m with MOther => true | _ => false end) msgs && negb (existsb (Z.eqb 3) (s_raised s)))
+              || match msgs with [] => true | _ => false end
+      then fail "error-on-valid-arguments" []
+      else None
+  | ObPage es cs info tot =>
       if negb (args_ok a) then None     (* not this property's business; the model comparison sees it *)
+      else if match raised with [] => false | _ => true end then fail "page-despite-getter-error" []
+      else if existsb (Z.eqb 3) (s_raised s) then fail "page-despite-non-slice-answer" []
+      else if tc_fails s then fail "page-despite-total-count-error" []
+      else if negb (match tot, want_total (s_sel s), s_tc s with
+                    | Some n, true, TCVal m => Z.eqb n m
+                    | None, false, _ => true
+                    | _, _, _ => false
+                    end) then fail "total-count-wrong" []
       else
         let ref := TimeRef E a in
         match find (fun e => negb (memb e E)) es with
@@ -260,16 +389,101 @@ Definition oracle_step (E : list edge) (g : query -> list edge) (i : nat) (s : s
         end end end end end end end
   end.
 
+(** ** The cursor codec against the strings that travelled *)
+Definition cursor_arg_eqb (a b : cursor_arg) : bool :=
+  match a, b with
+  | CAbsent, CAbsent => true
+  | CInvalid, CInvalid => true
+  | CCursor x, CCursor y => cursor_eqb x y
+  | _, _ => false
+  end.
+
+(** the argument strings decode (model of DeserializeCursor) to what the harness says the real
+    DeserializeCursor made of them; the emitted strings are the model's serialisation of the cursors
+    the harness decoded from them *)
+Definition compare_codec (i : nat) (s : step) : option sexp :=
+  let bad (what : string) := Some (v_mismatch what [of_nat i]) in
+  let arg_ok raw c := match arg_of_wire raw with Some m => cursor_arg_eqb m c | None => true end in
+  let dt_ok raw t := match raw, t with
+                     | Some w, Some n => match parse_rfc3339 w with PDTime m => Z.eqb m n | PDOut => true end
+                     | None, None => true
+                     | _, _ => false
+                     end in
+  if negb (arg_ok (s_after_raw s) (a_after (s_args s)) && arg_ok (s_before_raw s) (a_before (s_args s)))
+  then bad "cursor-decoding"
+  else if negb (dt_ok (s_from_raw s) (a_from (s_args s)) && dt_ok (s_to_raw s) (a_to (s_args s)))
+  then bad "datetime-parsing"
+  else
+    match s_obs s, s_raw s with
+    | ObPage _ cs info _, Some r =>
+        let enc_ok (c : ocur) (raw : bytes) :=
+          match c with
+          | OcSome e => bytes_eqb (tb_encode e) raw
+          | OcNone => match raw with [] => true | _ => false end
+          | OcBad => true
+          end in
+        let fix all2 (a : list ocur) (b : list bytes) : bool :=
+          match a, b with
+          | [], [] => true
+          | x :: a', y :: b' => enc_ok x y && all2 a' b'
+          | _, _ => false
+          end in
+        if negb (all2 cs (rc_edges r)) then bad "cursor-encoding"
+        else match info with
+             | Some oi => if enc_ok (oi_start oi) (rc_start r) && enc_ok (oi_end oi) (rc_end r) then None
+                          else bad "pageinfo-cursor-encoding"
+             | None => None
+             end
+    | ObPage _ _ _ _, None => bad "raw-cursors-missing"
+    | _, _ => None
+    end.
+
+(** ** The field's cost functions against C14's model of them (Cost/CostModel.v), and the page
+    against the edge multiplier they announce *)
+Definition argval_of (o : option Z) : CostModel.argval := match o with Some z => CostModel.AInt z | None => CostModel.AAbsent end.
+Definition compare_cost (i : nat) (s : step) : option sexp :=
+  let a := s_args s in
+  match s_cost s with
+  | None => Some (v_mismatch "cost-missing" [of_nat i])
+  | Some (r, m, em) =>
+      let fc := CostModel.default_connection_cost (argval_of (a_first a)) (argval_of (a_last a))
+                  {| CostModel.k_user := tt; CostModel.k_max_edge := None |} in
+      let mem := match CostModel.fc_ctx fc with
+                 | Some c => match CostModel.edges_cost c with Some e => CostModel.fc_m e | None => (-1)%Z end
+                 | None => (-1)%Z
+                 end in
+      if negb (Z.eqb r (CostModel.fc_r fc) && Z.eqb m (CostModel.fc_m fc) && Z.eqb em mem)
+      then Some (v_mismatch "connection-cost" [of_nat i])
+      else match s_obs s with
+           | ObPage es _ _ _ =>
+               if Z.ltb em (Z.of_nat (List.length es)) then Some (v_oracle_fail "page-exceeds-cost-multiplier" [of_nat i]) else None
+           | _ => None
+           end
+  end.
+
 (** ** The model against the observation *)
 Definition compare_step (E : list edge) (g : query -> list edge) (i : nat) (s : step) : option sexp :=
   let a := s_args s in
-  let (mo, mq) := conn current g (pres_fun (s_pres s)) (s_info s) a in
+  let '(mo, mq, mtc) := xconn_current g (xpres_fun (s_xpres s)) (s_sel s) (s_tc s) a in
   let bad (what : string) := Some (v_mismatch what [of_nat i]) in
+  let is_other m := match m with MOther => true | _ => false end in
+  let matches_ferr m e := match m, e with
+                          | MG k, EGetter id => Z.eqb k id
+                          | MTC, ETotal _ => true
+                          | MOther, EBogus => true
+                          | MOther, ENonSlice => true
+                          | _, _ => false
+                          end in
   match mo, s_obs s with
-  | OError, ObError => None
-  | OPanic, ObCrash => None
-  | OPage mes minfo, ObPage es _ info =>
+  | XArgError, ObError msgs => if forallb is_other msgs then None else bad "argument-error-expected"
+  | XFieldError errs, ObError msgs =>
+      if match msgs with [] => false | _ => true end && forallb (fun m => existsb (matches_ferr m) errs) msgs
+      then None else bad "which-error"
+  | XPanic, ObCrash => None
+  | XPage mes minfo mtot, ObPage es _ info tot =>
       if negb (edges_eqb mes es) then bad "edges"
+      else if negb (match mtot, tot with Some x, Some y => Z.eqb x y | None, None => true | _, _ => false end)
+      then bad "total-count"
       else match minfo, info with
            | None, None => None
            | Some mi, Some oi =>
@@ -288,13 +502,13 @@ Definition compare_step (E : list edge) (g : query -> list edge) (i : nat) (s : 
 
 (** ** Walks *)
 Definition pages (steps : list step) : list (list edge) :=
-  map (fun s => match s_obs s with ObPage es _ _ => es | _ => [] end) steps.
+  map (fun s => match s_obs s with ObPage es _ _ _ => es | _ => [] end) steps.
 Definition window_args (from to : option Z) : args :=
   {| a_first := None; a_last := None; a_after := CAbsent; a_before := CAbsent; a_from := from; a_to := to |}.
 
 Definition more_flag (fwd : bool) (s : step) : bool :=
   match s_obs s with
-  | ObPage _ _ (Some oi) => if fwd then oi_next oi else oi_prev oi
+  | ObPage _ _ (Some oi) _ => if fwd then oi_next oi else oi_prev oi
   | _ => false
   end.
 
@@ -339,7 +553,12 @@ Definition step_classes (E : list edge) (g : query -> list edge) (s : step) : li
   let cond (b : bool) (c : string) := if b then [c] else [] in
   let m := conn current g (pres_fun ps) (s_info s) a in
   let shared := existsb (fun c => existsb (fun e => Z.eqb (nano e) (nano c) && negb (cursor_eqb e c)) E) (supplied a) in
-  let nonempty := match s_obs s with ObPage (_ :: _) _ _ => true | _ => false end in
+  let nonempty := match s_obs s with ObPage (_ :: _) _ _ _ => true | _ => false end in
+  let xps := xpres_fun (s_xpres s) in
+  let xm := xconn_current g xps (s_sel s) (s_tc s) a in
+  let nq := List.length (snd m) in
+  let failing := filter (fun k => match xerr (xps k) with Err _ => true | _ => false end) (seq 0 nq) in
+  let is_err o := match o with XFieldError _ => true | _ => false end in
   cond (match a_first a with Some _ => true | None => false end) "first"
   ++ cond (match a_last a with Some _ => true | None => false end) "last"
   ++ cond (match a_after a with CCursor _ => true | _ => false end) "after"
@@ -358,15 +577,49 @@ Definition step_classes (E : list edge) (g : query -> list edge) (s : step) : li
   ++ cond (existsb by_promise ps && forallb by_promise ps) "all-promise"
   ++ cond (existsb by_promise ps && negb (forallb by_promise ps)) "mixed-sync-promise"
   ++ cond (existsb nil_when_empty ps) "nil-results"
-  ++ cond (match s_obs s with ObError => true | _ => false end) "error"
+  ++ cond (match s_obs s with ObError _ => true | _ => false end) "error"
   ++ cond (negb (s_info s)) "no-pageinfo"
   ++ cond (args_ok a && more_ref E a) "truncated"
   ++ cond (args_ok a && negb nonempty) "empty-page"
   ++ cond (existsb (fun e => big (nano e)) (E ++ supplied a)) "extreme-nanoseconds"
-  ++ cond (queries_same (snd m) (s_triples s)) "triples-equal-model"
-  ++ cond (negb (queries_same (snd m) (s_triples s))) "triples-differ-from-model"
+  ++ cond (queries_same (snd (fst xm)) (s_triples s)) "triples-equal-model"
+  ++ cond (negb (queries_same (snd (fst xm)) (s_triples s))) "triples-differ-from-model"
+  ++ cond (match snd xm with Some n => Z.eqb (Z.of_nat n) (s_tccalls s) | None => true end) "total-count-calls-equal-model"
+  ++ cond (match snd xm with Some n => negb (Z.eqb (Z.of_nat n) (s_tccalls s)) | None => false end) "total-count-calls-differ-from-model"
+  ++ cond (existsb (fun k => negb (by_promise (xp (xps k)))) failing && is_err (fst (fst xm))) "getter-error-sync"
+  ++ cond (existsb (fun k => by_promise (xp (xps k))) failing && is_err (fst (fst xm))) "getter-error-promise"
+  ++ cond (Nat.ltb 1 (List.length failing)) "several-getter-errors"
+  ++ cond (Nat.ltb (List.length (snd (fst xm))) nq && is_err (fst (fst xm))) "queries-cut-short-by-error"
+  ++ cond (match failing with
+           | k :: _ => by_promise (xp (xps k)) && existsb (fun j => negb (by_promise (xp (xps j)))) failing
+           | [] => false
+           end) "sync-error-beats-earlier-promise-error"
+  ++ cond (match failing with [] => false | _ => true end
+           && existsb (fun c => match snd c with [] => false | _ => true end) (s_calls s)) "error-beside-fetched-edges"
+  ++ cond (existsb (fun k => match xerr (xps k) with TypedNilErr => true | _ => false end) (seq 0 nq)) "typed-nil-error"
+  ++ cond (negb (match fst (fst xm), fst (fst (xconn current false g xps (s_sel s) (s_tc s) a)) with
+                 | XPage x _ _, XPage y _ _ => edges_eqb x y
+                 | XFieldError x, XFieldError y => Nat.eqb (List.length x) (List.length y)
+                                                   && match x, y with EBogus :: _, EBogus :: _ => true
+                                                      | EBogus :: _, _ => false | _, EBogus :: _ => false | _, _ => true end
+                 | XArgError, XArgError => true
+                 | XPanic, XPanic => true
+                 | _, _ => false
+                 end)) "typed-nil-or-non-slice-fix-matters"
+  ++ cond (match arg_of_wire (s_after_raw s), arg_of_wire (s_before_raw s) with Some _, Some _ => false | _, _ => true end)
+          "cursor-string-outside-codec-model"
+  ++ cond (match s_from_raw s, s_to_raw s with Some _, _ => true | _, Some _ => true | _, _ => false end) "datetime-string-parsed-by-model"
+  ++ cond (existsb (fun o => match o with Some w => match parse_rfc3339 w with PDOut => true | _ => false end | None => false end)
+                   [s_from_raw s; s_to_raw s]) "datetime-string-outside-parser-model"
+  ++ cond (match s_after_raw s, s_before_raw s with
+           | Some (_ :: _), _ => true | _, Some (_ :: _) => true | _, _ => false end) "cursor-string-decoded-by-model"
+  ++ cond (existsb (Z.eqb 3) (s_raised s)) "non-slice-answer"
+  ++ cond (existsb (Z.eqb 3) (s_raised s) && negb (match raised_real 0 (s_raised s) with [] => true | _ => false end)) "non-slice-answer-and-getter-error"
+  ++ cond (want_total (s_sel s)) "total-count"
+  ++ cond (tc_fails s) "total-count-error"
+  ++ cond (want_total (s_sel s) && match fst (fst xm), snd (fst xm) with XPage _ _ _, [] => true | _, _ => false end) "total-count-without-fetch"
   ++ cond (match fst m, s_obs s with
-           | OPage _ (Some mi), ObPage _ _ (Some oi) =>
+           | OPage _ (Some mi), ObPage _ _ (Some oi) _ =>
                negb (match a_first a with
                      | Some _ => Bool.eqb (oi_prev oi) (has_prev mi)
                      | None => Bool.eqb (oi_next oi) (has_next mi)
@@ -388,7 +641,31 @@ Fixpoint first_some {A} (f : nat -> A -> option sexp) (i : nat) (l : list A) : o
   | x :: l' => match f i x with Some v => Some v | None => first_some f (S i) l' end
   end.
 
+(** ** [NewTimeBasedCursor] / [TimeBasedCursor.Time] on arbitrary [time.Time] values: the harness
+    reports a time (Unix seconds, nanoseconds), the Nano the library's constructor computed for it,
+    and the time [Time()] makes of that cursor; the model must compute both. *)
+Definition check_far (l : list sexp) : sexp :=
+  match l with
+  | [s; n; nano; bs; bn] =>
+      match as_Z s, as_Z n, as_Z nano, as_Z bs, as_Z bn with
+      | Some s', Some n', Some nano', Some bs', Some bn' =>
+          let t := {| gsec := s' + unix_to_internal; gnsec := n'; gmono := None; gloc := 0 |} in
+          let c := new_cursor t [] in
+          let back := cursor_time c in
+          if negb (Z.leb 0 n' && Z.ltb n' GoTimeModel.giga) then v_bad "far-nanoseconds"
+          else if negb (Z.eqb (TimeModel.nano c) nano') then v_mismatch "new-cursor-nano" []
+          else if negb (Z.eqb (gsec back - unix_to_internal) bs' && Z.eqb (gnsec back) bn') then v_mismatch "cursor-time" []
+          else if Z.eqb (inst back) (inst t) then v_ok ["cursor-denotes-edge-time"]
+          else v_ok ["cursor-wraps-edge-time-outside-int64-nanoseconds"]
+      | _, _, _, _, _ => v_bad "far-decode"
+      end
+  | _ => v_bad "far-shape"
+  end.
+
 Definition check (c : sexp) : sexp :=
+  match tagged "far" c with
+  | Some l => check_far l
+  | None =>
   match tagged "case" c with
   | Some l =>
       match field1 "edges" l, field1 "getter" l, field1 "kind" l, field1 "steps" l with
@@ -396,14 +673,18 @@ Definition check (c : sexp) : sexp :=
           match map_opt dec_edge es, dec_getter gk, dec_kind k, map_opt dec_step ss with
           | Some E, Some mk, Some kd, Some steps =>
               if negb (nodupb E) then v_bad "duplicate-cursors-in-data-set"
-              else if negb (forallb (fun s => forallb (call_honoured E (mk E)) (s_calls s)) steps)
+              else if negb (forallb (fun s => forallb (fun cr => Z.eqb (snd cr) 1 || Z.eqb (snd cr) 3 || call_honoured E (mk E) (fst cr))
+                                                      (combine (s_calls s) (s_raised s))) steps)
               then v_bad "harness-getter-does-not-honour-the-triple"
               else
                 let g := mk E in
                 match first_some (oracle_step E g) 0 steps with
                 | Some v => v
                 | None =>
-                    match first_some (compare_step E g) 0 steps with
+                    match first_some (fun i s => match compare_step E g i s with
+                                                     | Some v => Some v
+                                                     | None => match compare_codec i s with Some v => Some v | None => compare_cost i s end
+                                                     end) 0 steps with
                     | Some v => v
                     | None =>
                         let cls := dedup (flat_map (step_classes E g) steps) in
@@ -424,4 +705,5 @@ Definition check (c : sexp) : sexp :=
       | _, _, _, _ => v_bad "fields"
       end
   | None => v_bad "shape"
+  end
   end.
